@@ -87,7 +87,20 @@ impl Blocker {
     }
 
     #[inline]
+    #[cfg_attr(may_verif, allow(unreachable_code))]
     pub fn park(&self, timeout: Option<Duration>) -> Result<(), ParkError> {
+        #[cfg(may_verif)]
+        {
+            let me = crate::verif::addr(self);
+            let dur = timeout.map_or(0, |d| d.as_nanos() as usize);
+            crate::verif::pt("blk.park", me, timeout.is_some() as usize, dur);
+            let r = match self.parker {
+                Parker::Coroutine(ref co) => co.park_timeout(timeout),
+                Parker::Thread(ref t) => t.park_timeout(timeout),
+            };
+            crate::verif::pt("blk.park.ret", me, crate::verif::park_code(&r), 0);
+            return r;
+        }
         match self.parker {
             Parker::Coroutine(ref co) => co.park_timeout(timeout),
             Parker::Thread(ref t) => t.park_timeout(timeout),
@@ -96,6 +109,8 @@ impl Blocker {
 
     #[inline]
     pub fn unpark(&self) {
+        #[cfg(may_verif)]
+        crate::verif::pt("blk.unpark", crate::verif::addr(self), 0, 0);
         match self.parker {
             Parker::Coroutine(ref co) => co.unpark(),
             Parker::Thread(ref t) => t.unpark(),
